@@ -16,7 +16,7 @@ SPEC = dict(
     props_module="Refinery.Props.C03",
     gen_module="Refinery.Gen.Deadline",
     quick=dict(cases=600, len=60, shards=4),
-    thorough=dict(cases=48000, len=90, shards=16),
+    thorough=dict(cases=16000, len=90, shards=16),
     nontrivial=nontrivial,
     rule="cases = random schedules of span arrivals (root/child, several traces), fake-clock advances, send ticks, "
          "ejections and checkAlloc calls on a real InMemCollector (1-3 parked workers) under a random TracesConfig "
